@@ -73,12 +73,12 @@ def react_cases(tier, rng):
 def nontrivial(case, out):
     return ('ECanceled' in out or 'ECompleted' in out)
 
-STAGES = [dict(name='reactions', mode='app', coq='Check.C02r', cases=react_cases, nontrivial=nontrivial, shard=25, noshrink=True,
+STAGES = [dict(name='reactions', mode='app', coq='Check.C02r', profile=('Proofs.JudgeC02rWideP', 'JudgeC02rWideP.profile_C02r_wideb', 'C02_reactions_judgement_sound / C02_reactions_judgement_transfer'), cases=react_cases, nontrivial=nontrivial, shard=25, noshrink=True,
                exhaustive={'thorough': False, 'quick': True},
                rule='deactivation requested from inside an observer of the same frame\'s action events: a reaction (fires once) issues remove / despawn / rebuild / insert through the observer\'s Commands when an '
                     'event of a chosen action and kind (Started, Ongoing, Fired, Canceled, Completed) is delivered; every (kind, op) pair on two actions of an exclusive and a shared type, and random sets of 1-4 '
                     'reactions; the delivery order (closing events overtaking the rest of the frame) is compared with the model, and per (entity, action) every episode must be closed exactly once'),
-          dict(name='episodes', mode='app', coq='Check.C02c', cases=cases, nontrivial=nontrivial, shard=25,
+          dict(name='episodes', mode='app', coq='Check.C02c', profile=('Proofs.JudgeC02P', 'JudgeC02P.profile_C02b', 'C02_app_judgement_sound / C02_app_judgement_transfer'), cases=cases, nontrivial=nontrivial, shard=25,
                exhaustive={'thorough': False, 'quick': True},
                rule='real App, an exclusive and a shared context type, 2-3 entities, two actions per context driven by scripted states cycling through None/Ongoing/Fired (in half of the random cases also a plain blocker that fails now and then; in 40% the virtual clock is paused for some frames; in a quarter all contexts are tied to a gamepad that gets unplugged); '
                     'exhaustive: every single op from {insert, remove, despawn, respawn, rebuild} x entity x type issued after a frame in which the state is Ongoing / Fired / None, '
